@@ -38,6 +38,12 @@ def _ret_wrap(t, e):
     return '*r = ls_b64(%s);' % e
 
 
+def cstr(x):
+    """the bytes of a name as the body of a C string literal (own escaping: octal for everything outside plain printable ASCII)"""
+    bs = x.encode() if isinstance(x, str) else bytes(x)
+    return ''.join(chr(c) if 32 <= c < 127 and c not in (34, 92, 63) else '\\%03o' % c for c in bs)
+
+
 def gen_driver(batch, main=None, extra=''):
     main = main or getattr(batch, 'main', 'pure')
     pre_defs = ''
@@ -97,7 +103,7 @@ def gen_driver(batch, main=None, extra=''):
     if batch.externs:
         decl, init, rimpl, rmem, rtab, rglob = [], [], [], [], [], []
         for k, (mod, nm, kind, spec) in enumerate(batch.externs):
-            cond = '!strcmp(m,"%s")&&!strcmp(n,"%s")' % (mod, nm)
+            cond = '!strcmp(m,"%s")&&!strcmp(n,"%s")' % (cstr(mod), cstr(nm))
             if kind == 'table':
                 decl.append('static wasmTable ext%d; static wr_table* rext%d;' % (k, k))
                 init.append('if (rext%d) { free(ext%d.data); free(rext%d->e); free(rext%d); } wasmTableAllocate(&ext%d, %d, %d); rext%d = wr_table_new(%d, %d, 1);' % (k, k, k, k, k, spec[0], spec[1], k, spec[0], spec[1]))
